@@ -1,7 +1,7 @@
 (* C04 — dag_to_cpdag returns the essential graph of the DAG's Markov equivalence class. *)
 From Coq Require Import List Arith.
 From PG Require Import Base.ListSet Graph.MGraph C04.Dag C04.Model C04.Spec C04.Proofs C04.Structure C04.Classify
-  C04.EssRefl C04.Bounded_4 C04.Cover C04.Invariant C04.Bounded_5 C04.VStruct C04.VStructCor.
+  C04.EssRefl C04.Bounded_4 C04.Cover C04.Invariant C04.Bounded_5 C04.VStruct C04.VStructCor C04.Chickering C04.Chickering2 C04.DerComplete.
 Import ListNotations.
 
 (* unbounded: the labelling loop never runs out of fuel, for any graph and any node order *)
@@ -23,6 +23,26 @@ Theorem cpdag_vstructs_compelled : forall d ord vs c r, is_dag d -> topo d ord -
   forall a y b, Vstr d a y b -> In (a, y) c.
 Proof. exact cpdag_vstructs_compelled_thm. Qed.
 Print Assumptions cpdag_vstructs_compelled.
+
+(* UNBOUNDED, one half of Chickering's theorem: every DIRECTED edge of the result lies in every Markov-equivalent DAG
+   (for every DAG and every topological order) *)
+Theorem cpdag_compelled_sound : forall d ord vs c r, is_dag d -> topo d ord -> cpdag_model d ord = Some (vs, c, r) ->
+  forall a b, In (a, b) c -> essential d a b.
+Proof. exact cpdag_compelled_sound_thm. Qed.
+Print Assumptions cpdag_compelled_sound.
+
+(* UNBOUNDED: the labelling computes EXACTLY the closure of the v-structure edges under the four orientation rules (Der,
+   C04/Chickering.v); so what is left of Chickering's theorem is a statement about DAGs only: "an edge that is not derivable
+   is reversed in some Markov-equivalent DAG" *)
+Theorem cpdag_compelled_iff_derivable : forall d ord vs c r, is_dag d -> topo d ord -> cpdag_model d ord = Some (vs, c, r) ->
+  forall a b, In (a, b) c <-> Der d a b.
+Proof. exact cpdag_compelled_iff_der_thm. Qed.
+Print Assumptions cpdag_compelled_iff_derivable.
+
+(* UNBOUNDED: derivable edges are essential (soundness of the rule system) *)
+Theorem derivable_essential : forall d, is_dag d -> forall a b, Der d a b -> essential d a b.
+Proof. exact Der_essential. Qed.
+Print Assumptions derivable_essential.
 
 (* UNBOUNDED: the CPDAG has exactly the DAG's v-structures, is a well-formed PDAG, and the DAG is a consistent extension of it *)
 Theorem cpdag_vstructs : forall d ord c r, is_dag d -> topo d ord -> cpdag_model d ord = Some (V d, c, r) ->
